@@ -104,3 +104,45 @@ __CPROVER_ensures (V_WF_AT (r, gk));
   __CPROVER_assert (gk < rn ==> Wk == (gk == rn - 1 ? T[1] : (gk == rn - 2 ? T[0] : 0)), "[C11] mpz_set_d: the significand limbs at the top, zeros below: trunc (d) exactly");
 }''' % mpz_obj('R'), timeout=600,
     selftest=[('__gmpz_set_d', r'rp\[0\] = tp\[1\];', 'rp[0] = tp[0];'), ('__gmpz_set_d', r'negative \? -rn : rn', 'negative ? rn : rn'), ('__gmpz_set_d', r'\(\(r\)->_mp_alloc\) < rn', '((r)->_mp_alloc) < rn - 1')]))
+
+# ------------------------------------------------------------------ mpz_cmp_d: sign of z - d, exactly, for every z and every double except NaN (infinities included)
+# |d| >= 1 is T[1]*B^(e-1) + T[0]*B^(e-2) exactly (__gmp_extract_double, proved above; the harness calls the same real body).  So: more limbs than e <=> |z| > |d|; with n == e the limb
+# strings are compared from the top: z[n-1] : T[1], z[n-2] : T[0], then any non-zero lower limb of z makes |z| larger; with n == 1 a non-zero T[0] is a fraction of d below z.
+UNITS.append(dict(
+    name='mpz_cmp_d', props=['C11', 'C04', 'C15'], source='mpz/cmp_d.c', extra_sources=['extract-dbl.c'], contracts=['mpn.h', 'mpz.h'],
+    contract_text='''int __gmpz_cmp_d (mpz_srcptr z, double d)
+__CPROVER_requires (V_WF (z) && !__CPROVER_isnand (d) && V_GHOSTS_OK)
+__CPROVER_assigns (g_hd)
+__CPROVER_ensures (1);
+''', enforce=['__gmpz_cmp_d'], unwind=66,
+    functions={'__gmpz_cmp_d': dict(
+        inserts=[(r'if \(\(zp\)\[__i\] != 0\) return ret;', r'{ if ((zp)[__i] != 0) g_hd = __i; \g<0> }')],
+        loops={0: dict(scalars=['__i', 'g_hd'], inv='(-1 <= __i && __i <= zsize - 3 && ((__i < gj && gj < zsize - 2) ==> zp[gj] == 0))', dec='__i + 1')})},
+    assumptions=['d is not a NaN (NaN raises the invalid-operation trap: not modelled); infinities are included', '__gmp_extract_double is taken with its real body (unwound completely); its own unit proves that its output denotes d exactly',
+                 'woven ghost statement: g_hd = index of the non-zero low limb that decided the answer (the inserted text keeps the original `if ... return ret;`)'],
+    harness='''void h_mpz_cmp_d (void) {
+%s  mpz_srcptr z = &Z;
+  double d; __CPROVER_assume (!__CPROVER_isnand (d));
+  gk = 0; gh = 0; gj = nondet_long (); g_hd = -1; __CPROVER_assume (0 <= gj && gj < V_ZMAX && V_WF (z));
+  long sz = V_SIZ (z), n = V_ABS (sz);
+  mp_limb_t T[2] = {0, 0}; double ad = d < 0 ? -d : d; int e = 0;
+  if (!__CPROVER_isinfd (d) && ad >= 1.0) e = __gmp_extract_double (T, ad);
+  mp_limb_t Z1 = n >= 1 ? V_PTR (z)[n - 1] : 0, Z2 = n >= 2 ? V_PTR (z)[n - 2] : 0, Zj = gj < n ? V_PTR (z)[gj] : 0;
+  int c = __gmpz_cmp_d (z, d), s = (c > 0) - (c < 0), ret = sz > 0 ? 1 : -1;
+  if (d == 0)                         __CPROVER_assert (s == (sz > 0) - (sz < 0), "[C11] mpz_cmp_d: d == 0: sign of z");
+  else if (sz == 0)                   __CPROVER_assert (s == (d < 0 ? 1 : -1), "[C11] mpz_cmp_d: z == 0: opposite of the sign of d");
+  else if ((sz > 0) != (d > 0))       __CPROVER_assert (s == ret, "[C11] mpz_cmp_d: opposite signs");
+  else if (__CPROVER_isinfd (d))      __CPROVER_assert (s == -ret, "[C11] mpz_cmp_d: an infinity is beyond every integer");
+  else if (ad < 1.0)                  __CPROVER_assert (s == ret, "[C11] mpz_cmp_d: |d| < 1 <= |z|");
+  else if (n != e)                    __CPROVER_assert (s == (n > e ? ret : -ret), "[C11] mpz_cmp_d: different limb counts decide");
+  else if (Z1 != T[1])                __CPROVER_assert (s == (Z1 > T[1] ? ret : -ret), "[C11] mpz_cmp_d: top limb decides");
+  else if (n == 1)                    __CPROVER_assert (s == (T[0] != 0 ? -ret : 0), "[C11] mpz_cmp_d: one limb, equal: d is larger in magnitude exactly when it has a fraction");
+  else if (Z2 != T[0])                __CPROVER_assert (s == (Z2 > T[0] ? ret : -ret), "[C11] mpz_cmp_d: second limb decides");
+  else
+    {
+      __CPROVER_assert (s == 0 || s == ret, "[C11] mpz_cmp_d: both significand limbs equal: |z| >= |d|");
+      __CPROVER_assert ((s == 0 && gj < n - 2) ==> Zj == 0, "[C11] mpz_cmp_d: equal only if every lower limb of z is zero (at ghost gj)");
+      __CPROVER_assert (s == ret ==> (0 <= g_hd && g_hd < n - 2 && V_PTR (z)[g_hd] != 0), "[C11] mpz_cmp_d: larger only with a non-zero lower limb (ghost witness)");
+    }
+}''' % mpz_obj('Z'), timeout=600,
+    selftest=[('__gmpz_cmp_d', r'return \(darray\[0\] != 0 \? -ret : 0\);', 'return 0;'), ('__gmpz_cmp_d', r'if \(d < 1\.0\)', 'if (d <= 1.0)'), ('__gmpz_cmp_d', r'\(zsize-2\)-1', '(zsize-2)-2')]))
